@@ -17,6 +17,6 @@ cd /verif
 PASFMT_REPO="$WT" VERIF_EVIDENCE_DIR="$EV" ./verif "$@"
 RC=$?
 TAG=$(python3 -c "import hashlib,sys;print(hashlib.sha256(sys.argv[1].encode()).hexdigest()[:8])" "$WT")
-rm -rf /verif/.cache/facts/*-"$TAG" "$EV"
+rm -rf "${VERIF_CACHE:-/verif/.cache}"/facts/*-"$TAG" "$EV"
 git -C /repo worktree remove --force "$WT"
 exit $RC
